@@ -349,6 +349,21 @@ class OptimizeStub:
         return _OptResult(x, ok)
 
 
+def _minimize_scalar(self, fun, bounds=None, method=None, **kw):
+    """assumed contract of scipy.optimize.minimize_scalar(method='bounded'): success => x inside the bounds (that x is a
+    *global* minimiser is not assumed: Brent's method finds a local one); nothing when success is false"""
+    eng = sx.cur()
+    ok = self._fork_ok('minimize_scalar')
+    x = eng.fresh('ms_x')
+    if bounds is not None and ok:
+        eng.assume((x >= bounds[0]) & (x <= bounds[1]))
+    self.calls.append({'kind': 'minimize_scalar', 'fun': fun, 'bounds': bounds, 'method': method, 'kw': kw, 'x': x, 'success': ok})
+    return _OptResult(x, ok)
+
+
+OptimizeStub.minimize_scalar = _minimize_scalar
+
+
 class IntegrateStub:
     """quad(f, a, b)[0] = integral of f over [a, b] (assumed); the call is recorded, the value is opaque."""
 
